@@ -256,14 +256,14 @@ def run(ctx):
         streams.append(("corpus", corpus))
     streams.append(("exhaustive-2-threads", exhaustive(L)))
     rnd, kinds = [], {}
-    for _ in range(ctx.budget(1500, 60000)):
+    for _ in range(ctx.budget(1500, 50000)):
         l, k = random_line(rng)
         rnd.append(l)
         kinds[k] = kinds.get(k, 0) + 1
     streams.append(("random-schedules", rnd))
-    streams.append(("adversarial-pool", adversarial_lines(rng, ctx.budget(400, 20000))))
-    streams.append(("solo-pops", solo_lines(rng, ctx.budget(300, 10000))))
-    streams.append(("free-running", free_lines(rng, ctx.budget(40, 600))))
+    streams.append(("adversarial-pool", adversarial_lines(rng, ctx.budget(400, 15000))))
+    streams.append(("solo-pops", solo_lines(rng, ctx.budget(300, 8000))))
+    streams.append(("free-running", free_lines(rng, ctx.budget(40, 500))))
     ctx.cov["rule"] = ("schedule replay of the real containers (hook H1, baton scheduler, real std::threads): "
                        "every schedule prefix of length %d for %d two-thread program pairs (completed round-robin), "
                        "seeded random bursty/starving schedules for 2-4 threads over random programs/pool sizes 1-3/task tables, "
@@ -310,6 +310,23 @@ def replay(ctx, path):
 
 MANIFEST = dict(
     category="proof",
-    text="Lean 4 theorems over an interleaving model at the granularity of single AtomicValue operations, for every number of threads, every program and every schedule: lock_mutex, slot_unique, quiescent_count (general form with pending increments/decrements), counter_linear (incl. the LockFree::add compare-exchange loop), queue_multiset, pop_unique; model tied to the real containers by deterministic schedule replay through hook H1 (identical results and final state).",
-    note="Trusted: Lean kernel + 3 axioms; sequential consistency of C++11 seq_cst atomics assumed, not derived; non-atomic reads of TaskQueue::_current_queue_size outside the lock modelled as ordinary reads of the latest value; LockFree.hpp float atomics only get the counter_linear-style (no lost update) statement; queue capacity and size_t wrap-around not modelled.",
-    technique="Lean 4 proof: sum-over-threads invariants (frame lemma + local step lemma per program counter + omega, lifted by List.foldl induction) + deterministic schedule replay of real std::threads through a yield hook, exhaustive for two threads x short programs")
+    text=("Lean 4 theorems over an interleaving model at the granularity of single AtomicValue operations (plain code between two atomic "
+          "operations is a separate transition), each for every number of threads, every program per thread, every schedule (List Nat) and "
+          "every pool size / task table: lock_mutex (+lock_count, lock_held_once), slot_unique (+slot_count, owned_disjoint), quiescent_count "
+          "(general form with pending increments/decrements, owner form count = slots in callers' hands, number_taken_nonneg), counter_linear "
+          "(+counter_invariant, incl. the LockFree::add compare-exchange loop), queue_multiset, pop_unique, pop_holds_locks (uses the queue "
+          "lock's mutual exclusion for the re-read of _queue[index]; +task_holds_locks, queue_body_exclusive), rollback, add_photons_conserves "
+          "(+add_photons_no_loss: no buffer above PHOTONBUFFER_SIZE, free slot = empty buffer, nothing dropped, for clients that release "
+          "through free_buffer), and the progress statements slot_released, wraparound (any cursor value, pool full except one slot) and "
+          "pop_available in their obstruction-free form (the thread runs without interference); no theorem is left _partial. Model tied to the "
+          "real containers by deterministic schedule replay of real std::threads through hook H1: returned values in schedule order and the "
+          "final shared state identical, plus oracles on the implementation."),
+    note=("Trusted: Lean kernel + 3 axioms; sequential consistency of C++11 seq_cst atomics assumed, not derived; non-atomic reads of "
+          "TaskQueue::_current_queue_size outside the lock modelled as ordinary reads of the latest value; LockFree.hpp float atomics only get "
+          "the counter_linear-style (no lost update) statement on the integer compare-exchange loop; queue capacity and size_t wrap-around of "
+          "cursor/counters not modelled (number_taken_nonneg shows the occupancy counter never wraps); progress theorems (slot_released, "
+          "wraparound, pop_available) are for an undisturbed thread - under interference another thread may legitimately win the slot/locks; "
+          "callers free/unlock only what they hold; add_photons on an exhausted pool is undefined behaviour in the C++ (stuck state in the model)."),
+    technique=("Lean 4 proof: sum-over-threads invariants (frame lemma + local step lemma per program counter + omega, lifted by List.foldl "
+               "induction), ownership-frame arguments from slot/lock uniqueness, solo-run inductions for progress + deterministic schedule "
+               "replay of real std::threads through a yield hook (baton scheduler), exhaustive schedule prefixes for two threads x short programs"))
